@@ -284,7 +284,7 @@ func c13Dump(ids map[int64]bool) (map[int64]c13GState, map[int64]string) {
 		case status == "chan receive" && strings.Contains(s, "(*c13Gated).Select"):
 			st = c13Parked
 		case waitingOnSem && !strings.Contains(s, "(*Metrics)") &&
-			((strings.Contains(s, "(*RWMutex).RLock") && strings.Contains(s, "(*RegProcessor).processBdReq")) ||
+			((strings.Contains(s, "(*RWMutex).RLock") && strings.Contains(s, "(*RegProcessor).")) ||
 				(strings.Contains(s, "(*RWMutex).Lock") && strings.Contains(s, "(*RegProcessor).ReloadSubnets"))):
 			st = c13Blocked
 		}
@@ -684,6 +684,10 @@ func c13Explore(t *testing.T, out *vlib.Out, specs, prefix []string, budget *int
 // ---------------------------------------------------------------------------------------------
 // stress: ungated requests against concurrent reloads
 
+// c13StressContinuous: request goroutines keep going (cycling through their plan) until the
+// reloaders are done, so that every reload's write-lock request meets requests in flight
+var c13StressContinuous bool
+
 func c13Stress(t *testing.T, out *vlib.Out, r *vlib.Rand, nReq, nRounds, nReload, nReloaders int) {
 	p, _ := c13Processor(false)
 	type worker struct {
@@ -709,6 +713,8 @@ func c13Stress(t *testing.T, out *vlib.Out, r *vlib.Rand, nReq, nRounds, nReload
 		}
 	}
 	var verCtr atomic.Int64
+	var reloadersLeft atomic.Int64
+	reloadersLeft.Store(int64(nReloaders))
 	startGate := make(chan struct{})
 	for i := 0; i < nReq; i++ {
 		w := &worker{}
@@ -722,8 +728,9 @@ func c13Stress(t *testing.T, out *vlib.Out, r *vlib.Rand, nReq, nRounds, nReload
 				}
 			}()
 			<-startGate
-			for j, k := range plans[i] {
-				resp, err := p.RegisterBidirectional(k.request(1000+i*nRounds+j), pb.RegistrationSource_BidirectionalAPI, net.ParseIP("198.51.100.7").To4())
+			for j := 0; j < len(plans[i]) || (c13StressContinuous && reloadersLeft.Load() > 0); j++ {
+				k := plans[i][j%len(plans[i])]
+				resp, err := p.RegisterBidirectional(k.request(1000+i*nRounds+j%nRounds), pb.RegistrationSource_BidirectionalAPI, net.ParseIP("198.51.100.7").To4())
 				if err != nil || resp == nil {
 					continue
 				}
@@ -744,6 +751,7 @@ func c13Stress(t *testing.T, out *vlib.Out, r *vlib.Rand, nReq, nRounds, nReload
 		go func() {
 			w.gid.Store(c13GID())
 			defer w.done.Store(true)
+			defer reloadersLeft.Add(-1)
 			<-startGate
 			for j := 0; j < nReload; j++ {
 				v := int(verCtr.Add(1))
@@ -1034,10 +1042,12 @@ func TestVerifC13(t *testing.T) {
 	// lock windows that no gate can reach — e.g. between two acquisitions before the first selection —
 	// only open under real concurrency, so hammer the processor with back-to-back reloads
 	if os.Getenv("VERIF_SEARCH") == "1" {
+		c13StressContinuous = true
 		for i := 0; i < 12 && c13Deadlocks == 0; i++ {
-			c13Stress(t, out, r, r.Range(10, 24), r.Range(300, 600), 3000, r.Range(1, 2))
+			c13Stress(t, out, r, r.Range(10, 24), r.Range(50, 200), 1500, r.Range(1, 2))
 			out.Count("gen:search-stress")
 		}
+		c13StressContinuous = false
 	}
 	out.Note(fmt.Sprintf("deterministic scenarios are settled by goroutine dumps (no timeouts in the verdict); gate only on selector version 0; %d deadlock(s) observed", c13Deadlocks))
 }
